@@ -29,7 +29,7 @@ for label, docs, case in W:
     sc = {'docs': docs, 'oids': wire.Oids(), 'cases': [case]}
     coll = c11.mk_coll(docs)
     py, _ = c11.py_case(coll, case)
-    sel = c11.selected_docs(coll, case[1])
+    sel = c11.natural_selection(coll, case[1])[0]
     exp = c11.wide_expected(sel, case)
     assert c11.wide_norm(py) != c11.wide_norm(exp), (label, py, exp)
     flags = c11_order.flags_of(sel, c11.all_sorts(case))
